@@ -175,103 +175,315 @@ func runCtorErr(r *core.Run) {
 
 // ---------------------------------------------------------------- R-STREAMBUF
 
+// streamRoles: the fields of buffer.StreamLexer by role: buf is the []byte field; start and pos are the int
+// fields that Lexeme() uses as the low and high bound of z.buf[start:pos]; err is the error field.
+type streamRoles struct{ buf, start, pos, err string }
+
+func discoverStreamRoles(r *core.Run) (*streamRoles, string) {
+	lx := r.Prog.SSAFunc("buffer", "StreamLexer", "Lexeme")
+	if lx == nil {
+		return nil, "no Lexeme method"
+	}
+	sr := &streamRoles{}
+	if ret := singleReturn(lx); ret != nil && len(ret.Results) == 1 {
+		if sl, ok := ret.Results[0].(*ssa.Slice); ok && sl.Low != nil && sl.High != nil {
+			fld := func(v ssa.Value) string {
+				if u, ok := v.(*ssa.UnOp); ok && u.Op == token.MUL {
+					if fa, ok := u.X.(*ssa.FieldAddr); ok && fa.X == ssa.Value(lx.Params[0]) {
+						return fieldName(fa.X.Type(), fa.Field)
+					}
+				}
+				return ""
+			}
+			sr.buf, sr.start, sr.pos = fld(sl.X), fld(sl.Low), fld(sl.High)
+		}
+	}
+	if sr.buf == "" || sr.start == "" || sr.pos == "" {
+		return nil, "Lexeme() is not z.<buf>[z.<start>:z.<pos>]"
+	}
+	if st, ok := derefType(lx.Params[0].Type()).Underlying().(*types.Struct); ok {
+		for i := 0; i < st.NumFields(); i++ {
+			if types.Identical(st.Field(i).Type(), types.Universe.Lookup("error").Type()) {
+				sr.err = st.Field(i).Name()
+			}
+		}
+	}
+	return sr, ""
+}
+
+// readUnit: the refill function of StreamLexer (the unexported method that calls io.Reader.Read) together with the
+// unexported helpers of the same receiver it is split into.
+func readUnit(r *core.Run) []*ssa.Function {
+	var root *ssa.Function
+	ms := streamMethods(r)
+	isStream := map[*ssa.Function]bool{}
+	for _, f := range ms {
+		isStream[f] = true
+	}
+	reaches := map[*ssa.Function]bool{}
+	for _, f := range ms {
+		for _, c := range callsNamed(f, "Read") {
+			if c.Call.IsInvoke() {
+				reaches[f] = true
+			}
+		}
+	}
+	for changed := true; changed; {
+		changed = false
+		for _, f := range ms {
+			if reaches[f] || f.Object() == nil || f.Object().Exported() {
+				continue
+			}
+			for _, b := range f.Blocks {
+				for _, in := range b.Instrs {
+					if c, ok := in.(*ssa.Call); ok {
+						if g := c.Call.StaticCallee(); g != nil && reaches[g] && !reaches[f] {
+							reaches[f] = true
+							changed = true
+						}
+					}
+				}
+			}
+		}
+	}
+	// the root: the unexported refill method that no other refill method calls
+	called := map[*ssa.Function]bool{}
+	for f := range reaches {
+		for _, b := range f.Blocks {
+			for _, in := range b.Instrs {
+				if c, ok := in.(*ssa.Call); ok {
+					if g := c.Call.StaticCallee(); g != nil && reaches[g] && g != f {
+						called[g] = true
+					}
+				}
+			}
+		}
+	}
+	for f := range reaches {
+		if !called[f] && f.Object() != nil && !f.Object().Exported() {
+			if root != nil && root != f {
+				return nil // ambiguous
+			}
+			root = f
+		}
+	}
+	if root == nil {
+		return nil
+	}
+	unit := []*ssa.Function{root}
+	seen := map[*ssa.Function]bool{root: true}
+	for i := 0; i < len(unit); i++ {
+		for _, b := range unit[i].Blocks {
+			for _, in := range b.Instrs {
+				if c, ok := in.(*ssa.Call); ok {
+					if g := c.Call.StaticCallee(); g != nil && isStream[g] && !seen[g] && g.Object() != nil && !g.Object().Exported() {
+						seen[g] = true
+						unit = append(unit, g)
+					}
+				}
+			}
+		}
+	}
+	return unit
+}
+
 func runStreamBuf(r *core.Run) {
-	fn := r.Prog.SSAFunc("buffer", "StreamLexer", "read")
-	if fn == nil {
-		r.BrokenAnchor("buffer.StreamLexer.read")
+	sr, why := discoverStreamRoles(r)
+	if sr == nil {
+		r.Unknown("StreamLexer field roles", token.NoPos, why)
 		return
 	}
-	z := fn.Params[0].Name()
-	swaps := callsNamed(fn, "swap")
+	unit := readUnit(r)
+	if len(unit) == 0 {
+		r.BrokenAnchor("buffer.StreamLexer refill method (the unexported method that calls io.Reader.Read)")
+		return
+	}
+	inUnit := map[*ssa.Function]bool{}
+	for _, f := range unit {
+		inUnit[f] = true
+	}
+	// the pool's swap: the call, inside the unit, of a method on the pool object that takes ([]byte, int) and returns []byte
+	var swaps []*ssa.Call
+	for _, f := range unit {
+		for _, b := range f.Blocks {
+			for _, in := range b.Instrs {
+				c, ok := in.(*ssa.Call)
+				if !ok || c.Call.IsInvoke() {
+					continue
+				}
+				g := c.Call.StaticCallee()
+				if g == nil || g.Signature.Recv() == nil || inUnit[g] || !core.InModule(fnPkg(g)) {
+					continue
+				}
+				sig := g.Signature
+				if sig.Params().Len() == 2 && sig.Results().Len() == 1 {
+					_, p0 := sig.Params().At(0).Type().Underlying().(*types.Slice)
+					_, r0 := sig.Results().At(0).Type().Underlying().(*types.Slice)
+					if p0 && r0 && isIntType(sig.Params().At(1).Type()) {
+						swaps = append(swaps, c)
+					}
+				}
+			}
+		}
+	}
 	if len(swaps) != 1 {
-		r.Fail("read obtains its buffer from pool.swap", fn.Pos(), fmt.Sprintf("%d calls of bufferPool.swap in read(): the new buffer must come from the pool exactly once (the pool decides whether memory still referenced by unfreed tokens may be reused)", len(swaps)))
+		r.Fail("read obtains its buffer from the pool exactly once", unit[0].Pos(), fmt.Sprintf("%d calls of the pool's swap method in the refill code: the new buffer must come from the pool exactly once (the pool decides whether memory still referenced by unfreed tokens may be reused)", len(swaps)))
 		return
 	}
 	sw := swaps[0]
-	r.OK("read obtains its buffer from pool.swap", sw.Pos(), "")
+	r.OK("read obtains its buffer from the pool exactly once", sw.Pos(), "")
+	z := sw.Parent().Params[0].Name()
 	// (1) retired block is z.buf[:z.start]
 	okArg := false
-	if sl, ok := sw.Call.Args[1].(*ssa.Slice); ok && canon(sl.X) == z+".buf" && sl.Low == nil && sl.High != nil {
-		okArg = linOf(sl.High).equal(linAtom(z + ".start"))
+	if sl, ok := sw.Call.Args[1].(*ssa.Slice); ok && canon(sl.X) == z+"."+sr.buf && sl.Low == nil && sl.High != nil {
+		okArg = linOf(sl.High).equal(linAtom(z + "." + sr.start))
 	}
 	r.Check(okArg, "read retires exactly buf[:start]", sw.Pos(), "", "the block handed to the pool is not z.buf[:z.start]: the pool counts freed bytes against len(block); a longer block can never be fully freed (memory grows with the stream), a shorter one is reused while tokens still point into it")
-	// (2) every write into buffer memory targets the slice returned by swap
+	// (2) every write into buffer memory targets memory derived from the slice returned by swap
 	derived := map[ssa.Value]bool{sw: true}
 	for changed := true; changed; {
 		changed = false
-		for _, b := range fn.Blocks {
-			for _, in := range b.Instrs {
-				v, ok := in.(ssa.Value)
-				if !ok || derived[v] {
+		mark := func(v ssa.Value) {
+			if !derived[v] {
+				derived[v], changed = true, true
+			}
+		}
+		for _, f := range unit {
+			// a parameter is derived if every call site inside the unit passes a derived value
+			for i, p := range f.Params {
+				if derived[p] || i == 0 {
 					continue
 				}
-				switch x := in.(type) {
-				case *ssa.Slice:
-					if derived[x.X] {
-						derived[v], changed = true, true
+				sites := callSitesOf(r, f)
+				all := len(sites) > 0
+				for _, c := range sites {
+					if !inUnit[c.Parent()] || i >= len(c.Call.Args) || !derived[c.Call.Args[i]] {
+						all = false
 					}
-				case *ssa.Phi:
-					all := len(x.Edges) > 0
-					for _, e := range x.Edges {
-						if !derived[e] {
-							all = false
+				}
+				if all {
+					mark(p)
+				}
+			}
+			for _, b := range f.Blocks {
+				for _, in := range b.Instrs {
+					v, ok := in.(ssa.Value)
+					if !ok || derived[v] {
+						continue
+					}
+					switch x := in.(type) {
+					case *ssa.Slice:
+						if derived[x.X] {
+							mark(v)
 						}
-					}
-					if all {
-						derived[v], changed = true, true
+					case *ssa.Phi:
+						all := len(x.Edges) > 0
+						for _, e := range x.Edges {
+							if !derived[e] {
+								all = false
+							}
+						}
+						if all {
+							mark(v)
+						}
+					case *ssa.Extract:
+						if c, ok := x.Tuple.(*ssa.Call); ok {
+							if g := c.Call.StaticCallee(); g != nil && inUnit[g] {
+								all, any := true, false
+								for _, gb := range g.Blocks {
+									if ret, ok := lastInstr(gb).(*ssa.Return); ok && x.Index < len(ret.Results) {
+										any = true
+										if !derived[ret.Results[x.Index]] {
+											all = false
+										}
+									}
+								}
+								if all && any {
+									mark(v)
+								}
+							}
+						}
+					case *ssa.Call:
+						// result of a helper of the unit all of whose returns are derived
+						if g := x.Call.StaticCallee(); g != nil && inUnit[g] && g.Signature.Results().Len() >= 1 {
+							all, any := true, false
+							for _, gb := range g.Blocks {
+								if ret, ok := lastInstr(gb).(*ssa.Return); ok && len(ret.Results) >= 1 {
+									any = true
+									if !derived[ret.Results[0]] {
+										all = false
+									}
+								}
+							}
+							if all && any && g.Signature.Results().Len() == 1 {
+								mark(v)
+							}
+						}
 					}
 				}
 			}
 		}
 	}
 	writes := 0
-	for _, b := range fn.Blocks {
-		for _, in := range b.Instrs {
-			c, ok := in.(*ssa.Call)
-			if !ok {
-				continue
+	for _, f := range unit {
+		for _, b := range f.Blocks {
+			for _, in := range b.Instrs {
+				c, ok := in.(*ssa.Call)
+				if !ok {
+					continue
+				}
+				var dst ssa.Value
+				what := ""
+				if bi, ok := c.Call.Value.(*ssa.Builtin); ok && bi.Name() == "copy" {
+					dst, what = c.Call.Args[0], "copy"
+				} else if c.Call.IsInvoke() && c.Call.Method.Name() == "Read" {
+					dst, what = c.Call.Args[0], "Read"
+				}
+				if dst == nil {
+					continue
+				}
+				writes++
+				r.Check(derived[dst], fmt.Sprintf("read %s #%d writes into the pool's buffer", what, writes), c.Pos(), "", "bytes are written into memory that does not come from the pool's swap in this call (e.g. compaction inside the current buffer): slices returned by Shift/Lexeme that have not been freed are overwritten")
 			}
-			var dst ssa.Value
-			what := ""
-			if bi, ok := c.Call.Value.(*ssa.Builtin); ok && bi.Name() == "copy" {
-				dst, what = c.Call.Args[0], "copy"
-			} else if c.Call.IsInvoke() && c.Call.Method.Name() == "Read" {
-				dst, what = c.Call.Args[0], "Read"
-			}
-			if dst == nil {
-				continue
-			}
-			writes++
-			r.Check(derived[dst], fmt.Sprintf("read %s #%d writes into the pool's buffer", what, writes), c.Pos(), "", "bytes are written into memory that does not come from bufferPool.swap in this call (e.g. compaction inside the current buffer): slices returned by Shift/Lexeme that have not been freed are overwritten")
 		}
-	}
-	for _, st := range allStores(fn) {
-		if ia, ok := st.Addr.(*ssa.IndexAddr); ok && strings.HasSuffix(canon(ia.X), ".buf") {
-			r.Fail("read stores into z.buf", st.Pos(), "element store into the current buffer")
+		for _, st := range allStores(f) {
+			if ia, ok := st.Addr.(*ssa.IndexAddr); ok && strings.HasSuffix(canon(ia.X), "."+sr.buf) {
+				r.Fail("read stores into z.buf", st.Pos(), "element store into the current buffer")
+			}
 		}
 	}
 	r.Floor("buffer writes in read()", writes, 2)
-	// (3) bytes delivered by Read are counted on every path: d += n is in the block of the Read call (unconditional)
-	for i, rd := range callsNamed(fn, "Read") {
-		var nVal ssa.Value
-		for _, ref := range *rd.Referrers() {
-			if ex, ok := ref.(*ssa.Extract); ok && ex.Index == 0 {
-				nVal = ex
+	// (3) bytes delivered by Read are counted on every path: the count is added in the block of the Read call (unconditional)
+	ri := 0
+	for _, f := range unit {
+		for _, rd := range callsNamed(f, "Read") {
+			if !rd.Call.IsInvoke() {
+				continue
 			}
-		}
-		counted := false
-		if nVal != nil {
-			for _, ref := range *nVal.Referrers() {
-				if bo, ok := ref.(*ssa.BinOp); ok && bo.Op == token.ADD && bo.Block() == rd.Block() {
-					counted = true
+			ri++
+			var nVal ssa.Value
+			for _, ref := range *rd.Referrers() {
+				if ex, ok := ref.(*ssa.Extract); ok && ex.Index == 0 {
+					nVal = ex
 				}
 			}
+			counted := false
+			if nVal != nil {
+				for _, ref := range *nVal.Referrers() {
+					if bo, ok := ref.(*ssa.BinOp); ok && bo.Op == token.ADD && bo.Block() == rd.Block() {
+						counted = true
+					}
+				}
+			}
+			r.Check(counted, fmt.Sprintf("read counts the bytes of Read #%d unconditionally", ri), rd.Pos(), "", "the byte count returned by Read is not added to the buffer length on every path (e.g. skipped when err != nil): io.Reader may deliver n > 0 together with io.EOF or an error, and those bytes would be lost")
 		}
-		r.Check(counted, fmt.Sprintf("read counts the bytes of Read #%d unconditionally", i+1), rd.Pos(), "", "the byte count returned by Read is not added to the buffer length on every path (e.g. skipped when err != nil): io.Reader may deliver n > 0 together with io.EOF or an error, and those bytes would be lost")
 	}
 	// (4) the new z.buf is a prefix of the pool's buffer
-	for _, st := range storesToField(fn, z+".buf") {
-		r.Check(derived[st.Val], "read installs the pool's buffer", st.Pos(), "", "z.buf is replaced by memory that does not come from bufferPool.swap")
+	for _, f := range unit {
+		fz := f.Params[0].Name()
+		for _, st := range storesToField(f, fz+"."+sr.buf) {
+			r.Check(derived[st.Val], "read installs the pool's buffer", st.Pos(), "", "z.buf is replaced by memory that does not come from the pool's swap")
+		}
 	}
 }
 
